@@ -213,22 +213,36 @@ def run(ctx: Context) -> None:
         it_txt = norm_text(lp.iter)
         ok = it_txt in ('{**dataset.data_vars, **dataset.coords}.items()', 'dataset.variables.items()')
         ctx.check('R08.4', ok, "every data variable and every coordinate variable is routed", ac, lp, construct=f"for ... in {it_txt}")
-        top = lp.body[-1] if lp.body else None
-        branches = []
-        node = top
-        while isinstance(node, ast.If):
-            branches.append((norm_text(node.test), node.body))
-            if len(node.orelse) == 1 and isinstance(node.orelse[0], ast.If):
-                node = node.orelse[0]
-            else:
-                branches.append(('else', node.orelse))
-                node = None
-        tests = [t for t, _ in branches]
-        ok = tests == ['name in topology_variable_names', 'set(data_array.dims).isdisjoint(mesh_dimensions)', 'else']
-        ctx.check('R08.4', ok, "a variable is a re-indexed topology variable, or has no mesh dimension (copied), or is row-selected: exhaustive three-way routing", ac,
-                  top or lp, construct=f"routing tests {tests}")
+        # routing by what is known where each thing happens (if/elif/else, early `continue`, nested ifs: all the same)
+        TOPO_T = 'name in topology_variable_names'
+        DISJ_T = 'set(data_array.dims).isdisjoint(mesh_dimensions)'
+
+        def known(node):
+            fs = _facts(ctx, ac, node, expand=False)
+            return ({pol for t, pol in fs if t == TOPO_T} or {None}).pop(), ({pol for t, pol in fs if t == DISJ_T} or {None}).pop(), \
+                sorted((t, pol) for t, pol in fs if t not in (TOPO_T, DISJ_T) and not t.startswith(("'new_edge_index'", 'has_edges')))
+        copies_ = [c for c in ast.walk(lp) if isinstance(c, ast.Call) and isinstance(c.func, ast.Attribute) and c.func.attr == 'copy' and norm_text(c.func.value) == 'data_array']
+        rebuilt_ = [c for c in ast.walk(lp) if isinstance(c, ast.Call) and (callee(ctx, ac, c) or '').endswith('xarray.DataArray')]
+        writes_ = [c for c in ast.walk(lp) if isinstance(c, ast.Call) and isinstance(c.func, ast.Attribute) and c.func.attr == 'to_netcdf']
+        ok = (len(copies_) == 1 and known(copies_[0]) == (False, True, []) and len(rebuilt_) == 1 and known(rebuilt_[0]) == (False, False, [])
+              and writes_ and all(known(w)[0] is False and not known(w)[2] for w in writes_)
+              and ({known(w)[1] for w in writes_} == {None} or {known(w)[1] for w in writes_} == {True, False}))
+        ctx.check('R08.4', ok, "a variable is a re-indexed topology variable (skipped here), or has no mesh dimension (copied), or is row-selected; every variable that is not a topology variable is written: "
+                  "exhaustive three-way routing", ac, lp,
+                  construct=f"copy under {[known(c) for c in copies_]}, row selection under {[known(c) for c in rebuilt_]}, write under {[known(c) for c in writes_]} (topology variable?, no mesh dimension?, other)")
+        top = lp
         conts = [n for n in ast.walk(lp) if isinstance(n, (ast.Continue, ast.Break, ast.Return))]
-        ctx.check('R08.4', not conts, "no other exit skips a variable", ac, conts[0] if conts else lp, construct=f"early exits in the loop: {len(conts)}")
+        bad_exits = []
+        for n in conts:
+            fs = _facts(ctx, ac, n, expand=False)
+            in_inner = any(isinstance(o, ast.For) and o is not lp and any(x is n for x in ast.walk(o)) for o in ast.walk(lp))
+            if isinstance(n, ast.Continue) and not in_inner and (TOPO_T, True) in fs:
+                continue
+            if isinstance(n, ast.Continue) and in_inner and any(t.endswith(' in dimension_masks') and not pol for t, pol in fs):
+                continue
+            bad_exits.append(n)
+        ctx.check('R08.4', not bad_exits, "no other exit skips a variable (only a topology variable is passed over, and in the axis loop only an axis without a row mask)", ac,
+                  bad_exits[0] if bad_exits else lp, construct=f"early exits in the loop: {len(conts)}, unexplained: {len(bad_exits)}")
         inner = [n for n in ast.walk(lp) if isinstance(n, ast.For)]
         inner = [n for n in inner if n is not lp]
         def is_full_slice(e) -> bool:
@@ -275,7 +289,7 @@ def run(ctx: Context) -> None:
                             isinstance(sg[0][1], tuple) and sg[0][1][0] == 'iter' and sg[0][1][2] == (0,)
                         item = aflow.resolve(sg[1][1])
                         item_ok = isinstance(item, ast.Subscript) and norm_text(item.value) == 'dimension_masks' and isinstance(item.slice, ast.Name) and item.slice.id == dvar
-                        ok = cnt_ok and item_ok and (f"{dvar} in dimension_masks", True) in guards(ac, picks[0])
+                        ok = cnt_ok and item_ok and (f"{dvar} in dimension_masks", True) in _facts(ctx, ac, picks[0], expand=False)
                     else:
                         ok = False
         ctx.check('R08.4', ok, "rows are selected with the mask of that dimension at that dimension's own axis position", ac, inner[0] if inner else lp)
@@ -320,10 +334,14 @@ def run(ctx: Context) -> None:
               and {c for c in seq[2][1]} <= {(f'promoted_dtype == {dp}.dtype', True), (f'numpy.ma.is_masked({dp}.values)', False), (f'attr in {dp}.attrs', False)})
         ctx.check('R08.6', ok, "masked data first; then an attribute that is present (membership test, any value); then the dtype's own missing value", ff, ff.node,
                   construct=f"returns: {seq}")
-        attrs = [n for n in walk_no_nested(ff.node) if isinstance(n, ast.Assign) and norm_text(n.targets[0]) == 'attrs']
-        ok = len(attrs) == 1 and norm_text(attrs[0].value) == "['_FillValue', 'missing_value']" and \
-            any(isinstance(n, ast.For) and norm_text(n.iter) == 'attrs' for n in walk_no_nested(ff.node))
-        ctx.check('R08.6', ok, "_FillValue is preferred over missing_value", ff, attrs[0] if attrs else ff.node)
+        loops_ = [n for n in walk_no_nested(ff.node) if isinstance(n, ast.For) and any(isinstance(x, ast.Return) for x in ast.walk(n))]
+        order_ = None
+        if len(loops_) == 1:
+            it_ = fflow.resolve(loops_[0].iter)
+            if isinstance(it_, (ast.List, ast.Tuple)):
+                order_ = [const_value(e, None) for e in it_.elts]
+        ok = order_ == ['_FillValue', 'missing_value']
+        ctx.check('R08.6', ok, "_FillValue is preferred over missing_value", ff, loops_[0] if loops_ else ff.node, construct=f"attributes tried in order: {order_}")
         ex = fcfg.exits()
         ok = not [n for k, n in ex if k == 'fall'] and any(k == 'raise' and 'ValueError' in norm_text(n) for k, n in ex)
         ctx.check('R08.6', ok, "a variable with no usable fill value raises ValueError (and is then left unmasked)", ff, ff.node)
